@@ -326,4 +326,33 @@ end VolNonNeg
 /-! ### Non-vacuity -/
 example : (2 : ℚ) + ((3 : ℚ) / 2 - 1) * 2 = 2 * (3 / 2) := by norm_num
 
+/-! ### The delay+volume loop: the volume changes on ticks only, by the volume model's step at the tick's time -/
+
+/-- a tick (`step_type` 1) of the delay+volume loop grows the volume by the model's step evaluated at the time the tick
+ends (`d.tNew`, the tick time itself), and asks the volume model about division at that time and volume. -/
+theorem dv_tick_volume (g : Gen σ α) (m : SimModel α) (vm : VolModel α) (times : List α) (s : LoopState σ α)
+    (d : DVDecision σ α) (h1 : d.stepType = 1) :
+    (dvApply g m vm times s d).vol = s.vol + vm.step d.x d.p d.tNew s.vol m.dt
+      ∧ (dvApply g m vm times s d).divided = vm.divided d.tNew (s.vol + vm.step d.x d.p d.tNew s.vol m.dt) m.dt
+      ∧ (dvApply g m vm times s d).x = d.x := by
+  unfold dvApply
+  simp [h1]
+
+/-- every other step (firing, delivery, move to the requested time) leaves the volume as it was. -/
+theorem dv_other_volume (g : Gen σ α) (m : SimModel α) (vm : VolModel α) (times : List α) (s : LoopState σ α)
+    (d : DVDecision σ α) (h1 : d.stepType ≠ 1) : (dvApply g m vm times s d).vol = s.vol := by
+  unfold dvApply
+  simp only
+  split_ifs <;> (try split) <;> (try split_ifs) <;> first | rfl | (exfalso; exact h1 ‹_›)
+
+/-- the time handed to the volume model on a tick is the tick that is ending: `s.nextTick`, not the following one. -/
+theorem delayVolume_tick_time (g : Gen σ α) (m : SimModel α) (times : List α) (s : LoopState σ α)
+    (h : (dvDecide g m times s).stepType = 1) : (dvDecide g m times s).tNew = s.nextTick := by
+  unfold dvDecide at h ⊢
+  simp only at h ⊢
+  generalize dvPropose g m times s = pr at h ⊢
+  revert h
+  cases decide (pr.proposed < s.nextTick ∧ pr.proposed < s.q.next) <;> cases decide (s.nextTick < s.q.next) <;> simp
+  all_goals split_ifs <;> simp
+
 end Bioscrape.C11
